@@ -386,6 +386,7 @@ func (s *Session) mkKvs(st *State, rt types.Type, val T) T {
 	content := s.uf("str2bytes", arrSort(SInt), val)
 	st.Heap[bname] = s.define("H", Store(bh, bptr, content))
 	s.assume(Eq(s.uf("bytes2str", SInt, content, I(0), s.strlen(val)), val))
+	s.assume(Eq(Eq(s.strlen(val), I(0)), Eq(val, I(0))))
 	s.assume(Ge(s.strlen(val), I(0)))
 	kv.L[leafIdx(kvLoc.Typ, ".Value#ptr")] = bptr
 	kv.L[leafIdx(kvLoc.Typ, ".Value#off")] = I(0)
